@@ -316,3 +316,57 @@ Proof.
 Qed.
 
 End LinkEvents.
+
+(* ---------- the bytes of a frame against the values the sending session passed ---------- *)
+(* the values send_input serialises, in handle order: those of the players 0 .. num_players-1 the map mentions *)
+Definition sent_values (hs : list Z) (inputs : list (Z * (Z * Z))) : list Z :=
+  flat_map (fun h => match alookup h inputs with Some (_, v) => [v] | None => [] end) hs.
+
+Lemma le_value_bytes : forall v rest, 0 <= v < 4294967296 -> le_value (le_bytes v ++ rest) = Some v.
+Proof.
+  intros v rest Hv. unfold le_bytes. cbn [app le_value]. f_equal.
+  rewrite !Z2N.id by (apply Z.mod_pos_bound; lia). lia.
+Qed.
+
+Lemma from_inputs_go_bytes : forall hs inputs frame acc f b,
+  from_inputs_go hs inputs frame acc = Ok (f, b) -> b = acc ++ concat (map le_bytes (sent_values hs inputs)).
+Proof.
+  induction hs as [|h r IH]; intros inputs frame acc f b H; cbn [from_inputs_go sent_values flat_map] in *.
+  - inversion H; subst. cbn. rewrite app_nil_r. reflexivity.
+  - destruct (alookup h inputs) as [[f0 v]|] eqn:E.
+    + destruct ((frame =? NULL) || (f0 =? NULL) || (frame =? f0)); [|discriminate].
+      apply IH in H. rewrite H. cbn [app map concat]. fold (sent_values r inputs). rewrite <- app_assoc. reflexivity.
+    + apply IH in H. exact H.
+Qed.
+
+Lemma player_values_concat : forall vs rest, Forall (fun v => 0 <= v < 4294967296) vs ->
+  player_values (length vs) 4 (concat (map le_bytes vs) ++ rest) = Some vs.
+Proof.
+  induction vs as [|v vs IH]; intros rest H; cbn [length player_values map concat]; [reflexivity|].
+  inversion H as [|? ? Hv Hvs]; subst.
+  assert (E1 : firstn 4 ((le_bytes v ++ concat (map le_bytes vs)) ++ rest) = le_bytes v) by reflexivity.
+  assert (E2 : skipn 4 ((le_bytes v ++ concat (map le_bytes vs)) ++ rest) = concat (map le_bytes vs) ++ rest) by reflexivity.
+  rewrite E1, E2. replace (le_bytes v) with (le_bytes v ++ []) by apply app_nil_r.
+  rewrite (le_value_bytes v [] Hv), (IH rest Hvs). reflexivity.
+Qed.
+
+Lemma concat_le_length : forall vs, length (concat (map le_bytes vs)) = (4 * length vs)%nat.
+Proof. induction vs as [|v vs IH]; cbn [map concat length]; [reflexivity|]. rewrite app_length, IH. cbn [le_bytes length]. lia. Qed.
+
+(* what the receiver decodes from a frame's bytes is what the sender's session passed, value by value *)
+Theorem to_player_inputs_from_inputs : forall np inputs f b,
+  from_inputs np inputs = Ok (f, b) ->
+  let vs := sent_values (map Z.of_nat (seq 0 (Z.to_nat np))) inputs in
+  vs <> [] -> Forall (fun v => 0 <= v < 4294967296) vs ->
+  to_player_inputs (length vs) b = Some vs.
+Proof.
+  intros np inputs f b H vs Hne Hr. unfold from_inputs in H. apply from_inputs_go_bytes in H. cbn [app] in H.
+  fold vs in H. subst b. unfold to_player_inputs.
+  destruct (length vs) as [|n] eqn:El; [destruct vs; [congruence|discriminate]|].
+  rewrite concat_le_length, El.
+  assert ((Z.of_nat (4 * S n) mod Z.of_nat (S n) =? 0) = true) as ->.
+  { apply Z.eqb_eq. rewrite Nat2Z.inj_mul. apply Z_mod_mult. }
+  assert (Z.to_nat (Z.of_nat (4 * S n) / Z.of_nat (S n)) = 4%nat) as ->.
+  { rewrite Nat2Z.inj_mul, Z.div_mul by lia. reflexivity. }
+  rewrite <- El. rewrite <- (app_nil_r (concat (map le_bytes vs))). apply player_values_concat. exact Hr.
+Qed.
